@@ -43,6 +43,8 @@ def zext( value, new_width ):
 
 def clog2( N ):
   assert N > 0
+  if isinstance( N, int ):
+    return (N-1).bit_length()
   return int( math.ceil( math.log( N, 2 ) ) )
 
 def sext( value, new_width ):
